@@ -321,6 +321,9 @@ prop("C08", [
     {"name": "c08_handler_timeouts", "sources": ["c08_lifecycle.cc"], "c_sources": ["common/netgate.c"], "flavour": "asan",
      "args": {"quick": ["--handler-timeout-ms=1200", "--d1=4", "--d2=0", "--timeout-ms=120000", "--deadline-s=170"],
               "thorough": ["--handler-timeout-ms=1200", "--d1=6", "--d2=4", "--timeout-ms=600000", "--deadline-s=1500"]}},
+    {"name": "c08_parked", "sources": ["c08_lifecycle.cc"], "c_sources": ["common/netgate.c"], "flavour": "asan",
+     "args": {"quick": ["--park=1", "--handler-timeout-ms=1200", "--d1=4", "--d2=0", "--timeout-ms=120000", "--deadline-s=170"],
+              "thorough": ["--park=1", "--handler-timeout-ms=1200", "--d1=6", "--d2=4", "--timeout-ms=600000", "--deadline-s=1500"]}},
     {"name": "c08_files", "sources": ["c08_lifecycle.cc"], "c_sources": ["common/netgate.c"], "flavour": "asan",
      "args": {"quick": ["--files=1", "--d1=5", "--d2=0", "--faults=1", "--tick=1000", "--timeout-ms=120000", "--deadline-s=170"],
               "thorough": ["--files=1", "--d1=6", "--d2=4", "--faults=1", "--tick=1000", "--timeout-ms=600000", "--deadline-s=1500"]}},
